@@ -40,9 +40,9 @@ class DType:
 
 DT = z3.DeclareSort("DType")
 float16 = half = DType("float16", "f", 5)
-float32 = float = DType("float32", "f", 6)  # noqa: A001
+float32 = DType("float32", "f", 6)
 float64 = double = DType("float64", "f", 7)
-int32 = int = DType("int32", "i", 3)  # noqa: A001
+int32 = DType("int32", "i", 3)
 int64 = long = DType("int64", "i", 4)
 uint8 = DType("uint8", "i", 1)
 bool_ = DType("bool", "b", 0)
